@@ -21,6 +21,9 @@ def streams():
     z2 = (c.compress(b'compressed message two ' * 20) + c.flush(zlib.Z_SYNC_FLUSH))[:-4]
     s4 = ref.server_frame(1, z1[:10], fin=0, rsv1=1) + ref.server_frame(9, b'p') + ref.server_frame(0, z1[10:], fin=1) + ref.server_frame(2, z2, rsv1=1) + ref.server_frame(1, b'plain')
     out.append(('permessage-deflate: fragmented compressed text, compressed binary, plain text', s4, b'Sec-WebSocket-Extensions: permessage-deflate\r\n', dict(compress=True)))
+    big = bytes((i * 7 + 3) % 256 for i in range(20000))
+    out.append(('a 20 000-byte binary message coalesced with the handshake reply (more than the 16 KiB header limit in one read)',
+                ref.server_frame(2, big) + ref.server_frame(1, b'after') + ref.server_frame(8, struct.pack('!H', 1000)), b'', {}))
     return out
 
 
@@ -37,9 +40,27 @@ def result_of(run):
     return evs, writes, run.exception
 
 
-def cut_sets(total, header_len, seed):
+def frame_boundaries(stream):
+    out, off = [], 0
+    while off < len(stream):
+        d = ref.decode_one(stream[off:])
+        if d is None:
+            break
+        off += d['total']
+        out.append(off)
+    return out
+
+
+def cut_sets(total, header_len, seed, stream=b''):
     rnd = random.Random(seed)
     sets = [('one byte per read', range(1, total))]
+    fb = [header_len + b for b in frame_boundaries(stream)]
+    if fb:
+        # the handshake reply in a read of its own, then every frame in a read of its own (payloads handed on from one
+        # read must survive the next read into the same receive buffer), and variants
+        sets.append(('reply, then one frame per read', [header_len] + fb[:-1]))
+        sets.append(('reply, then two frames per read', [header_len] + fb[1:-1:2]))
+        sets.append(('reply with the first frame header, then one frame per read', [header_len + 2] + fb[:-1]))
     interesting = [header_len - 3, header_len - 1, header_len, header_len + 1, header_len + 2, header_len + 3]
     for c in interesting:
         sets.append(('single cut at offset %d' % c, [c]))
@@ -60,7 +81,7 @@ def replay(obligation, extra):
         base = result_of(harness.drive(**kw))
         header_len = len(harness.response_for(b'x' * 24, extra_hdr))
         total = header_len + len(stream)
-        for desc, cuts in cut_sets(total, header_len, seed):
+        for desc, cuts in cut_sets(total, header_len, seed, stream):
             tried += 1
             got = result_of(harness.drive(cuts=cuts, **kw))
             if got != base:
